@@ -1,5 +1,6 @@
 """C20 — executable_path / prefix_path / endianness: API-misuse rule for readlink, separator-cut shape, endian table.
 The actual path on any install location needs the OS and is not decided."""
+import re
 from .. import clangjson as cj
 from .. import ir
 from .. import trange
@@ -99,6 +100,23 @@ def _is_wrapper(d, f):
     return None
 
 
+def _string_content(n):
+    """does this initialiser / right-hand side give a string characters (anything but a default construction or an empty literal)?"""
+    n = ir.strip(n)
+    while n.get("kind") in ("CXXConstructExpr", "CXXTemporaryObjectExpr", "CXXFunctionalCastExpr", "CXXBindTemporaryExpr", "MaterializeTemporaryExpr", "ImplicitCastExpr", "ExprWithCleanups"):
+        ks = [c for c in ir.ekids(n) if c.get("kind") != "CXXDefaultArgExpr"]
+        if not ks:
+            return False
+        if len(ks) > 1:
+            return True
+        n = ir.strip(ks[0])
+    if n.get("kind") == "StringLiteral":
+        return n.get("value") not in ('""', "")
+    if n.get("kind") == "InitListExpr" and not ir.ekids(n):
+        return False
+    return True
+
+
 def _readlink_flow(d, fn, wrappers):
     """Path-wise: every use of the buffer that readlink filled (a string built / assigned / appended from it) must lie on a path whose conditions
     entail `len >= 0` and `len < capacity` for the most recent call, and a counted use must pass exactly the returned length.
@@ -142,8 +160,10 @@ def _readlink_flow(d, fn, wrappers):
             if isinstance(x, tuple) and x and x[0] == "ref":
                 return x[1]
         return None
-    res = {"uses": 0, "fail": None, "trunc": None, "count": None, "cstring": None}
+    res = {"uses": 0, "fail": None, "trunc": None, "count": None, "cstring": None, "source": None}
+    returns_string = "string" in ((fn.get("type") or {}).get("qualType", "").split("(")[0])
     for path in paths:
+        written = {}      # string local -> the node that gave it content on this path
         facts = []
         env = {}          # integer local -> Lin
         bools = {}        # bool local -> (op, Lin, Lin)
@@ -276,9 +296,22 @@ def _readlink_flow(d, fn, wrappers):
                 else:
                     env.pop(v.get("name"), None)
                     scan_uses(v)
+                    if "basic_string" in ir.qtype(v) and _string_content(init[-1]):
+                        written[v.get("name")] = v
                 continue
             if kind == "return" and isinstance(step[1], dict):
                 scan_uses(step[1])
+                if returns_string and st["k"] == 0 and ir.ekids(step[1]) and res["source"] is None:
+                    e_ = ir.ekids(step[1])[0]
+                    rt_ = uncast(ir.sx(e_))
+                    src_ = None
+                    if rt_[0] == "ref" and rt_[1] in written:
+                        src_ = written[rt_[1]]
+                    elif rt_[0] != "ref" and _string_content(e_):
+                        src_ = e_
+                    if src_ is not None:
+                        res["source"] = (step[1], "a path returns the string given content by `%s` without any readlink call before it: on that path the result is "
+                                                  "not the target of /proc/self/exe" % re.sub(r"\s+", " ", d.text(src_))[:70])
                 continue
             if kind != "ev" or not isinstance(step[1], dict):
                 continue
@@ -298,6 +331,17 @@ def _readlink_flow(d, fn, wrappers):
                     env.pop(nm, None)
                     bools.pop(nm, None)
                 continue
+            if n.get("kind") in ("CXXOperatorCallExpr", "CXXMemberCallExpr"):
+                tw = uncast(t)
+                tgt_ = None
+                if tw[0] == "bin" and tw[1] in ("=", "+=") and uncast(tw[2])[0] == "ref":
+                    tgt_, rhs_ = uncast(tw[2])[1], (ir.ekids(n)[2] if len(ir.ekids(n)) > 2 else None)
+                    if rhs_ is not None and not _string_content(rhs_):
+                        tgt_ = None
+                elif tw[0] == "call" and tw[1][0] == "mem" and tw[1][2] in ("assign", "append", "push_back", "insert") and uncast(tw[1][1])[0] == "ref":
+                    tgt_ = uncast(tw[1][1])[1]
+                if tgt_ is not None and "basic_string" in ir.qtype(ir.ekids(n)[1] if n.get("kind") == "CXXOperatorCallExpr" else n):
+                    written.setdefault(tgt_, n)
             bc = rl_call(n)
             if bc is not None:
                 # evaluated for its value elsewhere (initialiser / assignment): those sites create the pair; a bare call statement discards the length
@@ -355,6 +399,10 @@ def _readlink_site(rep, d, fn, call, t, name, flow_res=None):
     neg1 = lambda x: x is not None and ((x[0] == "un" and x[1] == "-" and x[2] == ("lit", "1")) or x == ("lit", "-1"))
     zero = lambda x: x == ("lit", "0")
     has_fail = any((op in ("==", "!=") and neg1(o)) or (op in ("<", ">=") and zero(o)) for _, op, o in fail_tests)
+    if flow_res is not None and flow_res.get("source"):
+        rep.violates("C20.readlink", name, "the result comes from /proc/self/exe", where=d.where(flow_res["source"][0]), detail=flow_res["source"][1])
+    elif flow_res is not None:
+        rep.holds("C20.readlink", name, "the result comes from /proc/self/exe", where=where, detail="no path returns a string that was given content before the first readlink call")
     if flow_res is not None:
         if flow_res["fail"]:
             rep.violates("C20.readlink", name, "failure test", where=d.where(flow_res["fail"][0]), detail=flow_res["fail"][1])
@@ -769,6 +817,28 @@ def rule_endian(rep, d, fn):
                 probe = (n.get("name"), iv[0], ir.qtype(n))
     XTL = {"big_endian": 0, "little_endian": 1, "mixed": 2}
     STD = {"little": 1234, "big": 4321, "native": 1234}
+    # the enumerator values as declared (an integer converted to xtl::endian means the enumerator with that value)
+    enum_decl = [n for n in d.by_id.values() if n.get("kind") == "EnumDecl" and n.get("name") == "endian" and "xplatform" in (d.where(n) or "")]
+    if enum_decl:
+        nxt, vals = 0, {}
+        for ec in ir.kids(enum_decl[0]):
+            if ec.get("kind") != "EnumConstantDecl":
+                continue
+            iv_ = None
+            for x in ir.walk_expr(ec):
+                if x.get("kind") == "ConstantExpr" and "value" in x:
+                    iv_ = int(x["value"])
+                    break
+                if x.get("kind") == "IntegerLiteral":
+                    iv_ = int(x["value"])
+            if iv_ is not None:
+                nxt = iv_
+            vals[ec.get("name")] = nxt
+            nxt += 1
+        if {"big_endian", "little_endian"} <= set(vals):
+            XTL = vals
+    local_init = {v.get("id"): ir.ekids(v)[-1] for v in ir.walk_expr(ir.body(fn)) if v.get("kind") == "VarDecl" and ir.ekids(v)
+                  and ("const" in ir.qtype(v) or v.get("constexpr"))}
 
     def fold(n):
         n0 = n
@@ -787,7 +857,19 @@ def rule_endian(rep, d, fn):
                 if "std::endian" in q:
                     return STD.get(nm)
                 return XTL.get(nm)
+            if rd.get("id") in local_init:
+                return fold(local_init[rd.get("id")])
             return None
+        if k == "BinaryOperator" and n.get("opcode") in ("||", "&&"):
+            a = fold(ks[0])
+            if a is None:
+                return None
+            if n.get("opcode") == "||" and a:
+                return 1
+            if n.get("opcode") == "&&" and not a:
+                return 0
+            b = fold(ks[1])
+            return None if b is None else int(bool(b))
         if k in ("IntegerLiteral",):
             return int(n.get("value"))
         if k == "CXXBoolLiteralExpr":
@@ -819,7 +901,7 @@ def rule_endian(rep, d, fn):
             if v is not None:
                 rep.violates("C20.endian", name, "single decision", where=d.where(rets[0]),
                              detail="in this configuration the function is `%s`, which folds to %s on this little-endian target: the reported byte order is not the machine's" % (
-                                 d.text(rets[0])[:70], {0: "big_endian", 1: "little_endian", 2: "mixed"}.get(v, v)))
+                                 d.text(rets[0])[:70], {v_: k_ for k_, v_ in XTL.items()}.get(v, v)))
                 return
         consts = [r for r in ir.walk_expr(ir.body(fn)) if r.get("kind") == "ReturnStmt" and ir.ekids(r)
                   and ir.strip(ir.ekids(r)[0]).get("kind") == "DeclRefExpr" and (ir.strip(ir.ekids(r)[0]).get("referencedDecl") or {}).get("kind") == "EnumConstantDecl"]
